@@ -592,6 +592,25 @@ impl Model for PipeModel {
                                 let shape = format!("{}/after:{}", if self.send_max > 1 { "addpath" } else { "plain" }, trigger);
                                 cur.push((format!("C01/view-differs-from-fresh-session/{class}/{shape}"), format!("{detail}; neighbour view {:?}; fresh view {:?}", sys.mirror.keys().collect::<Vec<_>>(), fresh.keys().collect::<Vec<_>>())));
                             }
+                            // independent of the dump (a brand-new session goes through the same dump code):
+                            // to iBGP-type and route-server neighbours the next hop is the one stored with the
+                            // path the route was exported from
+                            if !matches!(self.role, ObsRole::Ebgp) {
+                                let loc = sys.d.tables.collect_loc_rib_paths(F);
+                                for ((pfx, pid), (_, nhop)) in sys.mirror.iter() {
+                                    let Some(c) = loc.iter().find(|c| format!("{}", c.net) == *pfx) else { continue };
+                                    let path = if self.send_max > 1 { c.current_paths.iter().find(|p| p.local_path_id == *pid) } else { None };
+                                    let want: Vec<Option<IpAddr>> = match path {
+                                        Some(p) => vec![p.nexthop.map(|n| n.addr())],
+                                        // without add-path: the path exported is the best one visible to this neighbour
+                                        None => c.current_paths.iter().map(|p| p.nexthop.map(|n| n.addr())).collect(),
+                                    };
+                                    if !want.contains(nhop) {
+                                        cur.push((format!("C01/next-hop-not-preserved/{}", if self.send_max > 1 { "addpath" } else { "plain" }), format!("({pfx}, {pid}) is in the neighbour's Adj-RIB-In with next hop {:?}; the RIB's paths for it have {:?} (an iBGP-type / route-server neighbour is sent the stored next hop)", nhop, want)));
+                                        break;
+                                    }
+                                }
+                            }
                             // independent of the dump: every mirrored prefix has a path in the RIB
                             let rib: BTreeSet<String> = sys.d.tables.collect_loc_rib_paths(F).iter().map(|c| format!("{}", c.net)).collect();
                             for (k, _) in sys.mirror.iter() {
@@ -749,7 +768,8 @@ fn models(thorough: bool) -> Vec<PipeModel> {
         if pack == "late" {
             ops.clear();
             ops.push(Op::Announce { src: 0, pfx: 0, attr: 0, nh: 0 });
-            ops.push(Op::Announce { src: 0, pfx: 1, attr: 0, nh: 0 });
+            // same attribute set, another next hop: the initial dump groups routes by attributes
+            ops.push(Op::Announce { src: 0, pfx: 1, attr: 0, nh: 1 });
             ops.push(Op::Announce { src: 1, pfx: 0, attr: 1, nh: 1 });
             ops.push(Op::Withdraw { src: 0, pfx: 0 });
             ops.push(Op::Withdraw { src: 1, pfx: 0 });
